@@ -32,8 +32,6 @@ def configs(tier):
     for lead in LEADS:
         for r in range(0, maxpre + 1):
             for pre in itertools.combinations(PRE, r):
-                if lead is not None and lead.replace(' ', '') in pre:
-                    continue        # the pre-state must itself be a valid (reachable, value-faithful) state
                 for t in ADD:
                     out.append((lead, pre, t))
     return out
@@ -203,7 +201,7 @@ def run(tier, seed):
                   % (len(cfgs), LEADS, 2 if tier == 'quick' else 3, PRE, ADD),
                   'create_equation_from_terms': 'all lists of length <= 3 over %r' % (TERMS,),
                   'numeric domain': 'all real coefficients (any accumulated multiplicity incl. 0, +-1), all real valuations of the names'}
-    chk.assumptions = ['names used as divisors are non-zero (z3 division is total; Python would raise)', 'pre-state: an equation whose merged terms are spelled differently from its opaque lead (a reachable, value-faithful state); '
+    chk.assumptions = ['names used as divisors are non-zero (z3 division is total; Python would raise)', 'pre-state: an equation with an opaque lead and merged terms (possibly spelled like the lead) with arbitrary coefficients; '
                        'histories of any length are covered by the inductive step because coefficients are arbitrary',
                        'terms rejected by the real Term parser (LogicError/SyntaxError/NotImplementedError) are outside the property']
     chk.outside = ['terms with more than one operator', 'coefficients that overflow to inf']
